@@ -488,7 +488,7 @@ def optimize_random(prop, tier, seed):
             c['inf'] = True
     # problems in which integrality matters (unit boxes, fractional knapsack rows), mapping rows shuffled or variables without any row
     focus = [dict(seed=rng.randint(0, 999999), mip=True, all_fixed=False, frac=True, shuffle=j % 2 == 0, unmapped=j % 3 != 0) for j in range(_n(tier, 40, 200))]
-    cases = focus[:len(focus) // 2] + cases + focus[len(focus) // 2:]
+    cases = [dict(seed=1, mip=False, all_fixed=False, unbounded=True)] + focus[:len(focus) // 2] + cases + focus[len(focus) // 2:]
     return dict(bounded=run_cases(sc.check_optimize_random, cases, 'random small problems handed to OptimProblem.optimize (1-5 variables, 0-4 rows of random types U/L/S/N, duplicated / shuffled mapping rows, variables without a mapping row, knapsack rows with fractional right-hand sides over unit boxes, boolean flags on variables with bounds other than 0/1, all variables fixed, one-sided variables with an infinite bound): feasibility, row satisfaction by type, boolean flags, value = -c.x, optimality and failure <=> infeasible against scipy milp',
                                   '<= 5 variables, <= 4 rows', 60 if tier == 'quick' else 400))
 
